@@ -43,7 +43,11 @@ def run(tier, seed):
     cases = []
     for b in range(nbooks):
         book = em.Book(rng, failing=(b % 3 == 0))
-        cls = realcode.load_class(realcode.translate(book.sheets()))
+        try:
+            cls = realcode.load_class(realcode.translate(book.sheets()))
+        except Exception as e:  # noqa
+            chk.violation({'why': 'a generated (valid, acyclic) workbook failed to translate: %r' % (e,), 'stream': 'setup', 'titles': list(em.TITLES), 'book': repr(book.cells)[:500]})
+            continue
         prefix = book.request_prefix()
         # 1. correspondence on query-heavy histories
         for _ in range(4):
